@@ -136,10 +136,19 @@ func (cb *CircuitBreaker) transitionToOpen() {
 }
 
 func (cb *CircuitBreaker) transitionToHalfOpen() {
-	cb.state.Store(int32(CircuitHalfOpen))
+	// Several callers can observe Open after the timeout at once. Only the first may reset the
+	// half-open admission counter (and it must do so before publishing the new state), otherwise
+	// a later caller zeroes the count of probes already admitted and more than
+	// HalfOpenRequests get through.
+	cb.mu.Lock()
+	defer cb.mu.Unlock()
+	if CircuitBreakerState(cb.state.Load()) != CircuitOpen {
+		return
+	}
 	cb.failures.Store(0)
 	cb.successes.Store(0)
 	cb.halfOpenRequests.Store(0)
+	cb.state.Store(int32(CircuitHalfOpen))
 }
 
 func (cb *CircuitBreaker) transitionToClosed() {
